@@ -21,12 +21,16 @@ type profile struct {
 	TagsAll                                                                           bool // every json tag spelling
 	NoNamedTime                                                                       bool // no defined types over time.Time (they have no JSON methods)
 	NoBytes                                                                           bool // no []byte / []uint8 (base64 on the wire)
-	ModShape                                                                          int  // 0: example.com/org/mod, 1: one element, 2: deep, 3: random
+	ModShape                                                                          int  // 0: example.com/org/mod, 1: one element, 2: deep, 3: random (incl. two elements), 4: two elements
+	TagsSafe                                                                          bool // tag spellings every target handles: names, "-", gomacro ignore / opaque / data-ignore, with and without a json name
+	TagsOmitempty                                                                     bool // with TagsSafe: also omitempty
+	SiblingMembers                                                                    bool // some union members are declared in the sibling file of the package
+	IgnoreOnWire                                                                      bool // with TagsSafe: gomacro:"ignore" on fields that encoding/json still serialises
 }
 
 func fullProfile() profile {
 	return profile{Enums: true, Unions: true, Structs: true, NamedBasics: true, Containers: true, Time: true, SubPkg: true,
-		Generics: true, Embedded: true, Recursive: true, TagsAll: true, ModShape: 3}
+		Generics: true, Embedded: true, Recursive: true, TagsAll: true, ModShape: 3, SiblingMembers: true}
 }
 
 type synth struct {
@@ -172,7 +176,32 @@ var jsonTagSpellings = []string{
 	`json:"%s,string"`, `json:"with space"`, `json:"a.b"`, `json:"é"`,
 }
 
+var safeTagSpellings = []string{
+	"", "", "", "", `json:"%s"`, `json:"-"`, `json:"-" gomacro:"ignore"`,
+	`gomacro-opaque:"typescript"`, `json:"%s" gomacro-opaque:"typescript"`, `json:"%s" gomacro-opaque:"dart"`, `gomacro-opaque:"dart, typescript"`,
+	`gomacro-data:"ignore"`, `json:"%s" gomacro-data:"ignore"`, `xml:"a" json:"%s"`,
+}
+
 func (s *synth) fieldTag(name string) string {
+	if !s.p.TagsAll && s.p.TagsSafe {
+		l := safeTagSpellings
+		if s.p.TagsOmitempty {
+			l = append(append([]string(nil), l...), `json:"%s,omitempty"`, `json:",omitempty"`)
+		}
+		if s.p.IgnoreOnWire {
+			// gomacro:"ignore" on a field encoding/json still writes: the key is on the wire and in no other output
+			l = append(append([]string(nil), l...), `gomacro:"ignore"`, `json:"%s" gomacro:"ignore"`)
+		}
+		sp := pick(s.r, l)
+		if sp == "" {
+			return ""
+		}
+		if strings.Contains(sp, "%s") {
+			sp = fmt.Sprintf(sp, "k_"+strings.ToLower(name))
+		}
+		s.tag("tag:" + strings.SplitN(strings.ReplaceAll(sp, "k_"+strings.ToLower(name), "N"), " ", 2)[0])
+		return "`" + sp + "`"
+	}
 	if !s.p.TagsAll {
 		if s.r.chance(1, 5) {
 			return fmt.Sprintf("`json:\"%s\"`", strings.ToLower(name))
@@ -370,6 +399,12 @@ func (s *synth) declUnion() {
 			m = pick(s.r, s.basics)
 		case len(s.lists) > 0 && s.r.chance(1, 4):
 			m = pick(s.r, s.lists)
+		case s.p.SiblingMembers && s.r.chance(1, 3):
+			// a member declared in the sibling file of the package (plain fields only)
+			m = s.fresh("S")
+			fmt.Fprintf(&s.o, "type %s struct {\n\tV%s int\n\tW%s string\n}\n\n", m, m, m)
+			s.structs = append(s.structs, m)
+			s.tag("union:member-in-sibling-file")
 		default:
 			m = s.declStruct()
 		}
@@ -439,7 +474,7 @@ func (s *synth) declTime() {
 
 func modPathFor(r *rng, shape int, odd bool) (string, string) {
 	if shape == 3 {
-		shape = r.intn(3)
+		shape = []int{0, 1, 2, 4}[r.intn(4)]
 	}
 	pkg := pick(r, []string{"models", "data", "core"})
 	if odd && r.chance(1, 2) {
@@ -448,6 +483,8 @@ func modPathFor(r *rng, shape int, odd bool) (string, string) {
 	switch shape {
 	case 1:
 		return pkg, pkg
+	case 4: // the module root is the two-element prefix the package selector keeps
+		return "example.com/" + pkg, pkg
 	case 2:
 		return "example.com/org/proj/internal/" + pkg, pkg
 	default:
